@@ -14,7 +14,8 @@
 
 use mls_rs::error::MlsError;
 use mls_rs::group::ReceivedMessage;
-use mls_rs::{ExportedTree, MlsMessage};
+use mls_rs::group::ExportedTree;
+use mls_rs::MlsMessage;
 use mls_rs_codec::{MlsDecode, MlsEncode};
 use serde_json::json;
 
@@ -205,8 +206,26 @@ fn matrix(cfg: WorldCfg, ctx: &mut Ctx) {
         ctx.extra("altered_trees_that_still_decode", tried);
         refused_join(&base, D, "no tree although the Welcome carries none", &base.welcome, None, |_| {}, ctx);
     } else {
-        // an out-of-band tree that contradicts the extension
-        refused_join(&base, D, "out-of-band tree of the previous epoch against the extension", &base.welcome, tree_from(&base.tree_before), |_| {}, ctx);
+        // an out-of-band tree that contradicts the extension: the extension is authoritative
+        // (validate_tree_joiner ignores the argument when the GroupInfo carries a tree), so the
+        // join may succeed -- but only with the members' state
+        let mut w = base.w.clone();
+        ctx.cur_trail = vec![format!("matrix[{}]: out-of-band tree of the previous epoch against the extension", cfg.label())];
+        ctx.eval();
+        match w.run(|w| w.join(D, &base.welcome, tree_from(&base.tree_before))) {
+            Ok(Ok(())) => {
+                let d = same_as_member(&w, D, A);
+                if !d.is_empty() {
+                    ctx.violation(format!("joiner-differs|contradicting-oob-tree|{}", d.join("+")), "a contradicting out-of-band tree changed the joiner's state");
+                }
+                ctx.outcome("matrix:contradicting-oob-tree:extension-wins");
+            }
+            Ok(Err(e)) => ctx.outcome(format!("matrix:contradicting-oob-tree:{}", err_name(&e))),
+            Err(_) => {
+                let (loc, msg, _) = take_panic();
+                ctx.violation(format!("panic|matrix|contradicting oob tree|{loc}"), msg);
+            }
+        }
     }
     // (c) Welcome / tree of another group with the same parties
     {
@@ -555,7 +574,9 @@ fn rejoin(c: &Rejoin, ctx: &mut Ctx) {
             Ok(e) => e,
             Err(_) => crate::engine::machinery("C07: state capture panicked"),
         };
-        let d = diff(&a, &b, &[]);
+        // the key-package removal marker is never cleared in a live group (a repeated no-op
+        // delete) and is not part of a stored snapshot
+        let d = diff(&a, &b, &["pending_key_package_removal"]);
         ctx.eval();
         if !d.is_empty() {
             ctx.violation(format!("rejoin-reload-differs|{}", diff_classes(&d)), format!("{d:?}"));
